@@ -1,7 +1,10 @@
 """C18 deepcopy / pickle fidelity."""
+import os
 import copy
 import pickle
 import random
+import shutil
+import tempfile
 
 from ..common import parse_monitored, payload_program, program_payload, digest
 from ..canon import shape, wellformed, iter_nodes, norm_text, first_diff
@@ -13,11 +16,15 @@ LEVEL = "exploration"
 TIERS = {"quick": {"cases": 1200, "wall": 80, "min_nontrivial": 200},
          "thorough": {"cases": 30000, "wall": 1200, "min_nontrivial": 4000}}
 RULE = ("generator -> valid program, decorated with comments, directive comments, unresolved INCLUDE lines and "
-        "preprocessor lines; string reader; std in {f2003,f2008}; comments dropped / kept / directives processed; "
+        "preprocessor lines; string reader for every configuration, plus per program one file-reader-backed tree and one tree "
+        "with an INCLUDE line resolved from a scratch directory (violations there carry the reader kind in their key); std in {f2003,f2008}; comments dropped / kept / directives processed; "
         "oracle: deepcopy and pickle round trip succeed, str and shape equal, copy is well formed (C10 invariants), node "
         "identity sets disjoint, mutating the copy (rename every Name, drop the last child of every block) leaves "
         "str(original) unchanged; non-trivial = tree with >= 50 nodes; distinct by SHA-1 of (source, config)")
-ASSUMPTIONS = ["trees come from string readers, as the property states"]
+ASSUMPTIONS = ["the file-backed variants read a scratch file the check writes itself (a .f90 file, free form stated explicitly)"]
+# reader kinds: string reader; file reader on a scratch file; string reader with an INCLUDE line resolved from a scratch directory
+# (the included file holds one comment line, so it is valid wherever a statement ends)
+READERS = ("string", "file", "include")
 DECIDING_MONITORS = ("copies_checked",)
 
 CONFIGS = [dict(ignore_comments=True), dict(ignore_comments=False), dict(ignore_comments=False, process_directives=True)]
@@ -56,15 +63,59 @@ def mutate(tree):
             del c[len(c) // 2]
 
 
-def one(P, std, ci, cseed, mons=None, raw=None):
+def _reader(src, ci, rk, tmp):
+    from fparser.common.sourceinfo import FortranFormat
+
+    opts = CONFIGS[ci]
+    if rk == "file":
+        path = os.path.join(tmp, "vf_c18.f90")
+        with open(path, "w") as f:
+            f.write(src + "\n")
+        reader = fp.FortranFileReader(path, **opts)
+    else:
+        with open(os.path.join(tmp, "vf_c18.inc"), "w") as f:
+            f.write("! comment line of the included file\n")
+        reader = fp.FortranStringReader(src, include_dirs=[tmp], **opts)
+    reader.set_format(FortranFormat(True, False))
+    return reader
+
+
+def one(P, std, ci, cseed, mons=None, raw=None, rk="string"):
     src = render(P, ci, cseed) if raw is None else raw
-    r = parse_monitored(src, std, conserve=False, **CONFIGS[ci])
+    if rk == "include" and raw is None:
+        # the INCLUDE line goes after the first statement line that ends a statement
+        _, info = layout.render(P, random.Random(cseed), dict(p_cont=0.0, comments=not CONFIGS[ci]["ignore_comments"]))
+        lines = src.split("\n")
+        last = [k for k, l in enumerate(lines) if l.strip() and not l.lstrip().startswith(("!", "#", "include"))]
+        at = last[len(last) // 2] if last else 0
+        lines.insert(at + 1, "include 'vf_c18.inc'")
+        src = "\n".join(lines)
+    if rk == "string":
+        return _one(src, std, ci, mons, None, "")
+    tmp = tempfile.mkdtemp(prefix="vf_c18_")
+    try:
+        return _one(src, std, ci, mons, _reader(src, ci, rk, tmp), rk + "-reader:")
+    finally:
+        shutil.rmtree(tmp, ignore_errors=True)
+
+
+def _one(src, std, ci, mons, reader, kp):
+    r = parse_monitored(src, std, reader=reader, conserve=False, **({} if reader is not None else CONFIGS[ci]))
     if r.error is not None:
+        if reader is not None:
+            # only a violation when the same text (the INCLUDE line replaced by the included comment) is accepted from a string
+            ref = src.replace("include 'vf_c18.inc'", "! comment line of the included file")
+            if parse_monitored(ref, std, conserve=False, **CONFIGS[ci]).error is None:
+                return viol(kp + "rejected", "(%s, %s) source accepted from a string is rejected: %s" % (std, CONFIGS[ci], str(r.error)[:120])), src, 0
         return None, src, 0
     T = r.tree
     s0, sh0 = str(T), shape(T)
     ids0 = {id(n) for n in iter_nodes(T)}
     tag = "(%s, %s)" % (std, CONFIGS[ci])
+
+    def kviol(key, detail):  # reader kind in front of the mechanism key
+        return viol(kp + key, detail)
+
     for how in ("deepcopy", "pickle"):
         try:
             C = copy.deepcopy(T) if how == "deepcopy" else pickle.loads(pickle.dumps(T))
@@ -73,29 +124,29 @@ def one(P, std, ci, cseed, mons=None, raw=None):
         except Exception as e:
             fr = fp.fparser_frames(e.__traceback__)
             where = fr[-1][0] if fr else "?"
-            return viol("%s-raises:%s" % (how, type(e).__name__), "%s %s raised %s: %s in %s" % (tag, how, type(e).__name__, str(e)[:120], where)), src, len(ids0)
+            return kviol("%s-raises:%s" % (how, type(e).__name__), "%s %s raised %s: %s in %s" % (tag, how, type(e).__name__, str(e)[:120], where)), src, len(ids0)
         if mons is not None:
             mons["copies_checked"] += 1
         if str(C) != s0:
-            return viol(how + "-text-differs", "%s str(copy) != str(tree)" % tag), src, len(ids0)
+            return kviol(how + "-text-differs", "%s str(copy) != str(tree)" % tag), src, len(ids0)
         shc = shape(C)
         if shc != sh0:
-            return viol(how + "-shape-differs", "%s %s" % (tag, first_diff(sh0, shc))), src, len(ids0)
+            return kviol(how + "-shape-differs", "%s %s" % (tag, first_diff(sh0, shc))), src, len(ids0)
         probs, _ = wellformed(C, check_walk=False)
         if probs:
-            return viol(how + "-copy-malformed:" + probs[0][0], "%s %s" % (tag, probs[0][1])), src, len(ids0)
+            return kviol(how + "-copy-malformed:" + probs[0][0], "%s %s" % (tag, probs[0][1])), src, len(ids0)
         idsc = {id(n) for n in iter_nodes(C)}
         if ids0 & idsc:
-            return viol(how + "-shares-nodes", "%s %d node objects shared with the original" % (tag, len(ids0 & idsc))), src, len(ids0)
+            return kviol(how + "-shares-nodes", "%s %d node objects shared with the original" % (tag, len(ids0 & idsc))), src, len(ids0)
         mutate(C)
         if str(T) != s0:
-            return viol(how + "-mutation-leaks", "%s mutating the copy changed str(original)" % tag), src, len(ids0)
+            return kviol(how + "-mutation-leaks", "%s mutating the copy changed str(original)" % tag), src, len(ids0)
     return None, src, len(ids0)
 
 
 def check(payload):
     if payload.get("mode") == "source":
-        v, _, _ = one(None, payload["std"], payload.get("ci", 1), 0, {"copies_checked": 0}, raw=payload["text"])
+        v, _, _ = one(None, payload["std"], payload.get("ci", 1), 0, {"copies_checked": 0}, raw=payload["text"], rk=payload.get("rk", "string"))
         return {"violations": [v] if v else [], "digests": [], "monitors": {"copies_checked": 1}, "tally": {}}
     P = payload_program(payload)
     std = payload["std"]
@@ -103,23 +154,24 @@ def check(payload):
     viols, digs = [], []
     mons = {"copies_checked": 0}
     seen = set()
-    for ci in range(len(CONFIGS)):
-        v, src, n = one(P, std, ci, cseed, mons)
+    runs = [(ci, "string") for ci in range(len(CONFIGS))] + [(cseed % 3, "file"), ((cseed // 3) % 3, "include")]
+    for ci, rk in runs:
+        v, src, n = one(P, std, ci, cseed, mons, rk=rk)
         if v is None:
             if n >= 50:
-                digs.append(digest(src, std, ci))
+                digs.append(digest(src, std, ci, rk))
             continue
         if v["key"] in seen:
             continue
         seen.add(v["key"])
         key = v["key"]
 
-        def still(Q, ci=ci, key=key):
-            w, _, _ = one(Q, std, ci, cseed)
+        def still(Q, ci=ci, key=key, rk=rk):
+            w, _, _ = one(Q, std, ci, cseed, rk=rk)
             return w is not None and w["key"] == key
 
         Q = shrink_program(P, still, budget=60)
-        w, qsrc, _ = one(Q, std, ci, cseed)
+        w, qsrc, _ = one(Q, std, ci, cseed, rk=rk)
         v["shrunk"] = {"source": qsrc, "detail": w["detail"] if w else None}
         v["payload"] = dict(payload, program=Q.to_json())
         viols.append(v)
